@@ -13,8 +13,8 @@ Theorem C15_font_cache_key_has_glyph_ids : font_key_has_gids = true.
 Proof. reflexivity. Qed.
 Print Assumptions C15_font_cache_key_has_glyph_ids.
 
-(* _open_pdf_reader installs the AES fallback before the first PdfReader(...) call, so
-   C15_aes_result_history_independent is the theorem about today's code *)
-Theorem C15_aes_fallback_installed_eagerly : aes_patch_eager = true.
+(* _open_pdf_reader installs the AES fallback for every document that needs it later (for every
+   encrypted document, or eagerly), so C15_aes_result_history_independent is about today's code *)
+Theorem C15_aes_fallback_install_safe : aes_mode_safe aes_install_mode = true.
 Proof. reflexivity. Qed.
-Print Assumptions C15_aes_fallback_installed_eagerly.
+Print Assumptions C15_aes_fallback_install_safe.
